@@ -27,6 +27,7 @@
    event it produces is tagged with the invocable that executes it (mode).  The simulator interface
    (executeActions, step, getProperties) and record / terminate-when expressions log the other events. *)
 From Coq Require Import List Arith Bool QArith.
+From Scenic Require C11.LTL.      (* rv_ltl's monitor: verdicts of temporal requirements (qualified names only) *)
 Import ListNotations.
 Local Open Scope nat_scope.
 
@@ -54,7 +55,8 @@ Inductive stmt :=
 | SCheck                             (* checkInvariants of the current owner *)
 | SYieldRaw                          (* `yield ()` of the scheduler of wait for/until: no invariant check *)
 | SDoRaw (b : nat)                   (* Behavior._invokeInner *)
-| SDoScenRaw (ss : list nat).        (* DynamicScenario._invokeInner *)
+| SDoScenRaw (ss : list nat)         (* DynamicScenario._invokeInner *)
+| SStopSubs.                         (* handler of `do S for/until`: `sub._stop(...)` for every running sub-scenario *)
 
 Inductive frame :=
 | FSeq (ss : list stmt)                              (* rest of a block *)
@@ -68,19 +70,24 @@ Definition kont := list frame.
 
 Inductive gstate := GRun (k : kont) | GDone.         (* a generator: suspended, or exhausted *)
 
-(* a running scenario instance: class id, _elapsedTime, compose iterator, monitors, _subScenarios *)
+(* a running scenario instance: class id, _elapsedTime, compose iterator, monitors,
+   _requirementMonitors (requirement id, valuations the monitor has been updated with), _subScenarios *)
 Inductive sstate := SState (sid : nat) (elapsed : nat) (k : option kont)
-                           (mons : list (nat * gstate)) (subs : list sstate).
+                           (mons : list (nat * gstate)) (reqs : list (nat * LTL.trace)) (subs : list sstate).
 
 Record behavior := { b_pre : list cond; b_inv : list cond; b_body : list stmt }.
 Record scenario := { s_pre : list cond; s_inv : list cond; s_limit : option Q;   (* terminate after, in steps *)
                      s_termwhen : list cond; s_monitors : list nat;
+                     s_reqs : list nat;           (* `require <temporal formula>` of the setup block: ids into p_reqs *)
                      s_compose : option (list stmt) }.
 Record program := { p_behaviors : list behavior; p_monitors : list (list stmt);
                     p_scenarios : list scenario;               (* index 0 = top-level scenario *)
                     p_objects : list (option nat);             (* object i -> its behavior, if any *)
                     p_rec_init : list nat; p_records : list nat; p_rec_final : list nat;
-                    p_termsim : list cond }.
+                    p_termsim : list cond;
+                    (* temporal requirements: formula over atoms 0..n-1 (one per atomic proposition, numbered
+                       in the order PropositionNode.atomics() lists them) and the condition each atom evaluates *)
+                    p_reqs : list (LTL.formula * list cond) }.
 Record world := { w_tab : list (list bool) }.
 
 (* ------------------------------------------------------------------------------------------ events *)
@@ -88,6 +95,7 @@ Record world := { w_tab : list (list bool) }.
 Inductive event :=
 | EScenario (sid n : nat)            (* mark logged by the compose block of scenario sid *)
 | ETermWhen (sid idx : nat)          (* evaluation of the idx-th `terminate when` of scenario sid *)
+| EReq (sid rid atom : nat)          (* monitor update of requirement rid of scenario sid: evaluation of its atom *)
 | ERecord (rid : nat)                (* evaluation of a record expression *)
 | EMonitor (mid n : nat)
 | ETermCheck (idx : nat)             (* evaluation of the idx-th `terminate simulation when` *)
@@ -189,6 +197,21 @@ Definition compile_handlers (hs : list (cond * list stmt)) : list (cond * list s
 
 Definition wait_forever : list stmt := [SWhile (CConst true) [SYieldRaw]].
 
+(* MonitorRequirement.lastValue: TRUE before the first update, then the verdict after the last update *)
+Definition req_last (P : program) (r : nat * LTL.trace) : LTL.B4 :=
+  match nth_error (p_reqs P) (fst r), snd r with
+  | Some (f, _), _ :: _ => LTL.verdict f (snd r)
+  | _, _ => LTL.BT
+  end.
+Definition req_ok (P : program) (r : nat * LTL.trace) : bool := negb (LTL.is_falsy (req_last P r)).
+(* DynamicScenario._stop (not quiet): the running sub-scenarios are stopped first, then the scenario's own
+   requirement monitors are consulted; a falsy last verdict anywhere raises RejectSimulationException *)
+Fixpoint stop_ok (P : program) (st : sstate) : bool :=
+  let '(SState _ _ _ _ reqs subs) := st in
+  forallb (req_ok P) reqs &&
+  (fix go (l : list sstate) : bool := match l with [] => true | s :: r => stop_ok P s && go r end) subs.
+Definition stops_ok (P : program) (l : list sstate) : bool := forallb (stop_ok P) l.
+
 (* result of stepping a scenario instance *)
 Inductive sres :=
 | SCont (st : sstate)                (* _step returned None *)
@@ -245,6 +268,7 @@ Definition start_scen (sid : nat) : sstate + outcome :=
                   end)
                  (map (fun m => (m, match nth_error (p_monitors P) m with
                                     | Some b => GRun [FSeq b] | None => GDone end)) (s_monitors sc))
+                 (map (fun r => (r, @nil LTL.valuation)) (s_reqs sc))
                  [])
       end
   end.
@@ -360,9 +384,11 @@ Definition run_body (m : mode) (ib : bool) (o : owner) (subs : list sstate) (k :
           rec m ib o subs (FTry true o wait_forever None [(c, [SAbort], None)] :: FSeq [SCheck] :: kk)
       | SDoScen ss' => rec m ib o subs (FSeq [SDoScenRaw ss'; SCheck] :: kk)
       | SDoScenFor ss' lim =>
-          rec m ib o subs (FTry true o [SDoScenRaw ss'] None [(CSince t lim, [SAbort], None)] :: FSeq [SCheck] :: kk)
+          rec m ib o subs (FTry true o [SDoScenRaw ss'] None [(CSince t lim, [SStopSubs; SAbort], None)] :: FSeq [SCheck] :: kk)
       | SDoScenUntil ss' c =>
-          rec m ib o subs (FTry true o [SDoScenRaw ss'] None [(c, [SAbort], None)] :: FSeq [SCheck] :: kk)
+          rec m ib o subs (FTry true o [SDoScenRaw ss'] None [(c, [SStopSubs; SAbort], None)] :: FSeq [SCheck] :: kk)
+      (* the handler of do-scenario-for/until stops the running sub-scenarios: their requirements are checked *)
+      | SStopSubs => if stops_ok P subs then rec m ib o [] kk else (OReject, [], subs)
       | STry body hs => rec m ib o subs (FTry true o body None (compile_handlers hs) :: kk)
       | SDoRaw b =>
           match m with
@@ -397,6 +423,28 @@ Fixpoint check_termwhen (sid idx : nat) (cs : list cond) : bool * list event :=
               else let '(b, e) := check_termwhen sid (S idx) r in (b, ETermWhen sid idx :: e)
   end.
 
+(* step 1a: every requirement monitor of the scenario is updated with the current valuation (each atomic
+   proposition is evaluated: logged); a verdict FALSE raises RejectSimulationException at once (the
+   remaining monitors are not updated) *)
+Definition req_events (sid rid n : nat) : list event := map (EReq sid rid) (seq 0 n).
+Fixpoint update_reqs (sid : nat) (rs : list (nat * LTL.trace)) : (list (nat * LTL.trace) * bool) * list event :=
+  match rs with
+  | [] => ([], false, [])
+  | (rid, h) :: rest =>
+      match nth_error (p_reqs P) rid with
+      | None => let '(l, b, e) := update_reqs sid rest in ((rid, h) :: l, b, e)
+      | Some (f, cs) =>
+          let h' := h ++ [map (eval w t) cs] in
+          let e := req_events sid rid (length cs) in
+          if LTL.is_BF (LTL.verdict f h') then ((rid, h') :: rest, true, e)
+          else let '(l, b, e2) := update_reqs sid rest in ((rid, h') :: l, b, e ++ e2)
+      end
+  end.
+
+(* step 1e: DynamicScenario._stop of a scenario in state st *)
+Definition stopped (st : sstate) (e : list event) : sres * list event :=
+  if stop_ok P st then (SStopped, e) else (SBad OReject, e).
+
 (* the part of DynamicScenario._step after the compose block: finished compose block? termination
    conditions?  (a scenario with guards but no compose block gets a generated no-op compose block) *)
 Definition has_compose (sc : scenario) : bool :=
@@ -406,34 +454,38 @@ Definition has_compose (sc : scenario) : bool :=
   | None, [], _ :: _ => true
   | None, [], [] => false
   end.
-Definition scen_fin (sc : scenario) (sid el : nat) (mons : list (nat * gstate))
+Definition scen_fin (sc : scenario) (sid el : nat) (mons : list (nat * gstate)) (reqs : list (nat * LTL.trace))
                     (k' : option kont) (subs' : list sstate) (e : list event) : sres * list event :=
-  if (match k' with None => has_compose sc | Some _ => false end) then (SStopped, e)
+  if (match k' with None => has_compose sc | Some _ => false end) then stopped (SState sid el k' mons reqs subs') e
   else let '(b, e2) := check_termwhen sid 0 (s_termwhen sc) in
-       if b then (SStopped, e ++ e2) else (SCont (SState sid (S el) k' mons subs'), e ++ e2).
+       if b then stopped (SState sid el k' mons reqs subs') (e ++ e2)
+       else (SCont (SState sid (S el) k' mons reqs subs'), e ++ e2).
 
 Definition limit_reached (sc : scenario) (el : nat) : bool :=
   match s_limit sc with Some L => Qle_bool L (inject_Z (Z.of_nat el)) | None => false end.
 
-(* DynamicScenario._step *)
+(* DynamicScenario._step, in the documented order: (a) temporal requirements, (b) time limit,
+   (d) compose block, then finished compose block / `terminate when` *)
 Definition scen_body (st : sstate) : sres * list event :=
-  let '(SState sid el k mons subs) := st in
+  let '(SState sid el k mons reqs subs) := st in
   match nth_error (p_scenarios P) sid with
   | None => (SBad OError, [])
   | Some sc =>
-      if limit_reached sc el then (SStopped, [])           (* reached time limit *)
+      let '(reqs', rej, er) := update_reqs sid reqs in
+      if rej then (SBad OReject, er)
+      else if limit_reached sc el then stopped (SState sid el k mons reqs' subs) er     (* reached time limit *)
       else
         match k with
-        | None => scen_fin sc sid el mons None subs []
+        | None => scen_fin sc sid el mons reqs' None subs er
         | Some kc =>
             let '(out, e, subs') := rec (MScen sid) false (OScen sid) subs kc in
             match out with
-            | OYield YEndScenario _ => (SStopped, e)
-            | OYield YEndSim _ => (SEndSim, e)
-            | OYield _ k' => scen_fin sc sid el mons (Some k') subs' e
-            | ODone => scen_fin sc sid el mons None subs' e
-            | OBlock _ => (SBad OError, e)
-            | bad => (SBad bad, e)
+            | OYield YEndScenario k' => stopped (SState sid el (Some k') mons reqs' subs') (er ++ e)
+            | OYield YEndSim _ => (SEndSim, er ++ e)
+            | OYield _ k' => scen_fin sc sid el mons reqs' (Some k') subs' (er ++ e)
+            | ODone => scen_fin sc sid el mons reqs' None subs' (er ++ e)
+            | OBlock _ => (SBad OError, er ++ e)
+            | bad => (SBad bad, er ++ e)
             end
         end
   end.
@@ -482,7 +534,7 @@ Fixpoint mons_of_subs (subs : list sstate) : (list sstate * bool * option outcom
    sub-scenario's reason) was seen, a monitor of this very scenario executed `terminate`, failure);
    the value returned by the Python method is not None iff one of the two booleans holds *)
 Definition mon_body (st : sstate) : (option sstate * bool * bool * option outcome) * list event :=
-  let '(SState sid el k mons subs) := st in
+  let '(SState sid el k mons reqs subs) := st in
   let '(mons', endsim, endscen, bad, e1) := step_monitors mons in
   match bad with
   | Some x => (None, false, false, Some x, e1)
@@ -491,8 +543,11 @@ Definition mon_body (st : sstate) : (option sstate * bool * bool * option outcom
       match bad2 with
       | Some x => (None, false, false, Some x, e1 ++ e2)
       | None =>
-          (if endscen then None else Some (SState sid el k mons' subs'),
-           endsim || subreason, endscen, None, e1 ++ e2)
+          (* a monitor of this scenario executed `terminate`: self._stop(...), which checks the requirements *)
+          if endscen && negb (stop_ok P (SState sid el k mons' reqs subs'))
+          then (None, false, false, Some OReject, e1 ++ e2)
+          else (if endscen then None else Some (SState sid el k mons' reqs subs'),
+                endsim || subreason, endscen, None, e1 ++ e2)
       end
   end.
 End Body.
@@ -512,13 +567,14 @@ Fixpoint run_mons (qsub : bool) (fuel : nat) (P : program) (w : world) (t : nat)
   : (option sstate * bool * bool * option outcome) * list event :=
   match fuel with
   | 0 => (None, false, false, Some OStuck, [])
-  | S f => mon_body (run fuel P w t) (run_mons qsub f P w t) qsub st
+  | S f => mon_body P (run fuel P w t) (run_mons qsub f P w t) qsub st
   end.
 
 (* ------------------------------------------------------------------------------------------ simulation *)
 
 Inductive term_type := TScenarioComplete | TMonitor | TSimCond | TTimeLimit | TBehavior.
-Inductive rkind := RDone (ty : term_type) | RRejected | RViolation (pre : bool) | RStuck | RError.
+Inductive rkind := RDone (ty : term_type) | RRejected | RViolation (pre : bool) | RStuck | RError
+                 | RSceneRejected.     (* Scenario.generate discarded the scene (requirement FALSE on the initial valuation) *)
 
 (* Simulation: currentTime, top-level scenario (None once stopped), agents with their root
    behaviour and generator, len(trajectory), actionSequence (newest first) *)
@@ -652,6 +708,14 @@ Record result := { r_kind : rkind; r_time : nat; r_traj : nat; r_actions : list 
 Definition result_of (k : rkind) (s : sim) : result :=
   {| r_kind := k; r_time := time s; r_traj := traj s; r_actions := rev (actlog s) |}.
 
+(* after _run has returned: every scenario still running is stopped ("simulation terminated"), which
+   consults its requirement monitors (documented step 10) *)
+Definition final_kind (P : program) (k : rkind) (s : sim) : rkind :=
+  match k, top s with
+  | RDone _, Some st => if stop_ok P st then k else RRejected
+  | _, _ => k
+  end.
+
 (* the loop itself; [n] bounds the number of iterations (exhaustion = RStuck) *)
 Fixpoint sim_loop (qsub : bool) (n : nat) (fuel : nat) (P : program) (w : world) (maxSteps : option nat)
                   (sched : nat -> list nat) (s : sim) : result * list event :=
@@ -660,7 +724,7 @@ Fixpoint sim_loop (qsub : bool) (n : nat) (fuel : nat) (P : program) (w : world)
   | S n' =>
       let '(r, e) := sim_step qsub fuel P w maxSteps sched s in
       match r with
-      | Stop k s' => (result_of k s', e)
+      | Stop k s' => (result_of (final_kind P k s') s', e)
       | Next s' => let '(res, e') := sim_loop qsub n' fuel P w maxSteps sched s' in (res, e ++ e')
       end
   end.
@@ -699,9 +763,20 @@ Definition init_sim (P : program) (w : world) : (sim + rkind) * list event :=
 
 Definition final_events (P : program) : list event := map ERecord (p_rec_final P).
 
+(* Scenario.generate (CompiledRequirement.falsifiedByInner): a fresh monitor of every requirement of the
+   top-level scenario is updated once with the initial valuation; verdict FALSE discards the scene *)
+Definition scene_ok (P : program) (w : world) : bool :=
+  match nth_error (p_scenarios P) 0 with
+  | None => true
+  | Some sc => forallb (fun rid => match nth_error (p_reqs P) rid with
+                                   | Some (f, cs) => negb (LTL.is_BF (LTL.verdict f [map (eval w 0) cs]))
+                                   | None => true end) (s_reqs sc)
+  end.
+
 (* Simulator.simulate for one simulation: result and complete event log *)
 Definition simulate (qsub : bool) (n fuel : nat) (P : program) (w : world) (maxSteps : option nat)
                     (sched : nat -> list nat) : result * list event :=
+  if negb (scene_ok P w) then ({| r_kind := RSceneRejected; r_time := 0; r_traj := 0; r_actions := [] |}, []) else
   let '(i, e0) := init_sim P w in
   match i with
   | inr k => ({| r_kind := k; r_time := 0; r_traj := 0; r_actions := [] |}, e0)
